@@ -435,6 +435,35 @@ def r06_6(run):
         run.ob('R06.6', mi, c, 'the classifier receives the caller\'s host', okh, slot='host-flow', message='_create_ip_address is given %s' % (src(a0) if a0 is not None else None))
 
 
+def r06_7(run):
+    """Draining the queued output (send_data, used when no synchronous writer is given) may call back into the machine: the
+    callback can deliver the server's reply, which queues the request.  Whatever empties the queue must therefore run before the
+    callback it hands the bytes to - a wholesale reset after the callback throws away what was queued meanwhile (the request)."""
+    sd = MU(run, 'send_data')
+    g = cfg_of(sd)
+    cbp = sd.params[1] if len(sd.params) > 1 else 'callback'
+    cbs = g.nodes_where(lambda n: any(isinstance(a, ast.Call) and dotted(a.func) == cbp for a in node_asts(n)))
+    run.floor('R06.7', 'callback calls in send_data', len(cbs), 1)
+
+    def wholesale(n):
+        if n.kind != 'stmt':
+            return False
+        for a in node_asts(n):
+            if isinstance(a, ast.Assign) and assign_to(a, 'self._outgoing_data') is not None and not mentions(a.value, 'self._outgoing_data'):
+                return True     # (an assignment that also reads the queue takes its content, it does not discard it)
+            if isinstance(a, ast.Call) and dotted(a.func) == 'self._outgoing_data.clear':
+                return True
+            if isinstance(a, ast.Delete) and any(isinstance(t, ast.Subscript) and dotted(t.value) == 'self._outgoing_data' and isinstance(t.slice, ast.Slice) for t in a.targets):
+                return True
+        return False
+    for c in cbs:
+        after = g.reachable([s_ for lab, s_ in c.succ if lab != 'exc'], follow_exc=False)
+        late = [n for n in after if wholesale(n)]
+        run.ob('R06.7', sd, c.ast, 'nothing empties the output queue after handing bytes to the callback', not late, slot='drain-reentrant',
+               message='send_data resets the queue (%s) after calling the callback: a request queued from inside that callback (the server\'s method reply '
+                       'delivered synchronously) is discarded - the peer sees the greeting and then no request at all' % (src(late[0].ast)[:40] if late else ''))
+
+
 def r06_4(run):
     disp = dispatch_table(run)
     k = 0
@@ -480,12 +509,14 @@ RULES = [
     ('R06.3', 'one request, only after a version-5 reply selecting method 0 (table + dominance)', r06_3),
     ('R06.5', 'no test narrows the legal port range 0..65535 (representatives evaluated through the comparisons)', r06_5),
     ('R06.6', 'classifier fidelity: family chosen by ipaddress.ip_address(host) alone, host/port carried unchanged', r06_6),
+    ('R06.7', 're-entrancy of the output drain: no wholesale reset of the queue after the callback', r06_7),
     ('R06.4', 'sibling agreement: every packed hostname comes from a strict ASCII encoding and a one-byte length', r06_4),
 ]
 
 from ..selftest import M  # noqa: E402
 F = 'txtorcon/socks.py'
 MUTANTS = [
+    M('drain-join-then-reset', F, "        while len(self._outgoing_data):\n            data = self._outgoing_data.pop(0)\n            callback(data)", "        if self._outgoing_data:\n            callback(b''.join(self._outgoing_data))\n            self._outgoing_data = []", ['R06.7']),
     M('trailing-dot-stripped', F, "        self._addr = _create_ip_address(str(host), port)", "        host = str(host)\n        if host.endswith('.'):\n            host = host[:-1]\n        self._addr = _create_ip_address(host, port)", ['R06.6']),
     M('v4-mapped-rewritten', F, "        a = None\n    if isinstance(a, ipaddress.IPv4Address):", "        a = None\n    if isinstance(a, ipaddress.IPv6Address) and a.ipv4_mapped is not None:\n        a = a.ipv4_mapped\n    if isinstance(a, ipaddress.IPv4Address):", ['R06.6']),
     M('families-swapped', F, "    if isinstance(a, ipaddress.IPv4Address):\n        return IPv4Address('TCP', host, port)", "    if isinstance(a, ipaddress.IPv6Address):\n        return IPv4Address('TCP', host, port)", ['R06.6']),
@@ -504,6 +535,7 @@ MUTANTS = [
     M('connect-encode-replace', F, "            host = host.encode('ascii')", "            host = host.encode('ascii', 'replace')", ['R06.4']),
 ]
 TWINS = [
+    M('drain-swap-then-call', F, "        while len(self._outgoing_data):\n            data = self._outgoing_data.pop(0)\n            callback(data)", "        while len(self._outgoing_data):\n            pending, self._outgoing_data = self._outgoing_data, []\n            callback(b''.join(pending))"),
     M('host-str-first', F, "        self._addr = _create_ip_address(str(host), port)", "        host = str(host)\n        self._addr = _create_ip_address(host, port)"),
     M('greeting-literal', F, "struct.pack('BBB', 5, 1, 0)", "b'\\x05\\x01\\x00'"),
     M('gt-order', F, "                '!BBBBB{}sH'.format(len(host)),\n                5,                   # version\n                0xF0,", "                '>BBBBB{}sH'.format(len(host)),\n                5,                   # version\n                0xF0,"),
